@@ -1,4 +1,5 @@
 import BV.Model.Ezsp.Cmd
+import BV.Model.Ezsp.Registry
 import BV.Drv.C05
 namespace BV.Drv.C06
 open BV.Cmd BV.Drv
@@ -42,8 +43,26 @@ def parseIn (s : String) : Option In :=
   | ["C", c] => c.toNat?.map .cancel
   | _ => none
 
-/-- `run <popOnExit 0|1> <seq0> <event> …` -/
+def parseROp (s : String) : Option BV.Registry.Op :=
+  match s.splitOn "=" with
+  | ["A", cb, h] => do pure (.add (← cb.toNat?) (← parseInt h))
+  | ["R", id] => (parseInt id).map .remove
+  | ["D", l] => (natList l).map .deliver
+  | _ => none
+
+def rOutStr : BV.Registry.Out → String
+  | .added id => s!"added:{id}"
+  | .removed cb => s!"removed:{cb}"
+  | .keyError => "keyerror"
+  | .called cbs => "called:" ++ (if cbs.isEmpty then "-" else ",".intercalate (cbs.map toString))
+  | .fuel => "FUEL"
+
+/-- `run <popOnExit 0|1> <seq0> <event> …`  |  `reg <op> …` (callback registry) -/
 def handle : List String → String
+  | "reg" :: ops =>
+    match allSome (ops.map parseROp) with
+    | some os => "|".intercalate ((BV.Registry.run {} os).2.map rOutStr)
+    | none => "bad-op"
   | "run" :: pop :: seq0 :: evs =>
     match seq0.toNat?, allSome (evs.map parseIn) with
     | some seq0, some is =>
